@@ -71,12 +71,15 @@ Proof. exact sqrt_rd_exact. Qed.
 Theorem C10_exp_relative_difference : forall l1 l2, l1 <> l2 ->
   @_exp_relative_difference R NumR l1 l2 = (exp l1 - exp l2) / (l1 - l2).
 Proof. exact exp_rd_exact. Qed.
+(* the two kernels wired into log_symm / pow_symm are the REGENERATED ones (Gen_TensorMathFun, re-translated from TensorMath.py on every run) *)
 Theorem C10_log_relative_difference : forall l1 l2, 0 < l1 -> 0 < l2 -> l1 <> l2 ->
-  @log_rd R NumR l1 l2 = (ln l1 - ln l2) / (l1 - l2).
+  @_log_relative_difference R NumR l1 l2 = (ln l1 - ln l2) / (l1 - l2).
 Proof. exact log_rd_exact. Qed.
 Theorem C10_pow_relative_difference : forall l1 l2 m, 0 < l1 -> 0 < l2 -> l1 <> l2 ->
-  @pow_rd R NumR l1 l2 m = (Rpower l1 m - Rpower l2 m) / (l1 - l2).
+  @_pow_relative_difference R NumR l1 l2 m = (Rpower l1 m - Rpower l2 m) / (l1 - l2).
 Proof. exact pow_rd_exact. Qed.
+Theorem C10_pow_relative_difference_confluent : forall l m, 0 < l -> @_pow_relative_difference R NumR l l m = m * Rpower l (m - 1).
+Proof. exact pow_rd_confluent. Qed.
 (* the reference kernel with the Taylor branch (|l1 - l2| <= 0.05 min): exact on the plain branch, 1e-9 relative on the Taylor one *)
 Theorem C10_log_taylor_accuracy : forall l1 l2, 0 < l1 -> 0 < l2 -> l1 <> l2 -> Rabs (l1 - l2) <= 5 / 100 * Rmin l1 l2 ->
   Rabs (@ad_rel_log_taylor R NumR l1 l2 - (ln l1 - ln l2) / (l1 - l2)) <= 1 / 1000000000 * Rabs ((ln l1 - ln l2) / (l1 - l2)).
